@@ -1009,11 +1009,11 @@ struct STbl {
     st: St,
     is_elem: bool,
     entries: Vec<(String, SNode)>,
-    ambiguous: bool,
+    floating: Vec<String>,
 }
 impl STbl {
     fn new(st: St) -> STbl {
-        STbl { st, is_elem: false, entries: vec![], ambiguous: false }
+        STbl { st, is_elem: false, entries: vec![], floating: vec![] }
     }
     fn find(&self, k: &str) -> Option<usize> {
         self.entries.iter().position(|(kk, _)| kk == k)
@@ -1142,7 +1142,7 @@ fn finish_tbl(t: &STbl, hint: TblKind) -> Tbl {
         }
     };
     let mut out = Tbl::new(kind);
-    out.order_ambiguous = t.ambiguous;
+    out.floating = t.floating.clone();
     for (k, n) in &t.entries {
         let node = match n {
             SNode::Val(v) => v.clone(),
@@ -1192,11 +1192,12 @@ pub fn apply_statements(stmts: &[SemStmt]) -> Result<Tbl, SemErr> {
                     }
                     Some(i) => {
                         let n = t.entries.len();
+                        let mut floating_key: Option<String> = None;
                         match &mut t.entries[i].1 {
                             SNode::Tbl(sub) if !*aot && sub.st == St::HeaderImplicit => {
                                 sub.st = St::Explicit;
                                 if i != n - 1 {
-                                    t.ambiguous = true;
+                                    floating_key = Some(last.clone());
                                 }
                             }
                             SNode::Tbl(sub) if !*aot => {
@@ -1222,6 +1223,11 @@ pub fn apply_statements(stmts: &[SemStmt]) -> Result<Tbl, SemErr> {
                             }
                             SNode::Val(_) => {
                                 return Err(SemErr::Invalid(format!("header on value `{last}`")))
+                            }
+                        }
+                        if let Some(k) = floating_key {
+                            if !t.floating.contains(&k) {
+                                t.floating.push(k);
                             }
                         }
                     }
